@@ -5,11 +5,13 @@ WT=${1:-/tmp/wt_self}
 cd /repo && (git worktree list | grep -q "$WT" || git worktree add -q --detach "$WT" HEAD)
 PROPS="C01 C02 C03 C04 C05 C06 C07 C08 C09 C10 C11 C12 C13 C14 C15 C16 C17 C18 C19 C20"
 fail=0
+SH_K=${SHARD%%/*}; SH_N=${SHARD##*/}; [ -z "$SHARD" ] && { SH_K=0; SH_N=1; }; idx=0
 # run from a snapshot of /verif's code (sharing .work and the driver), so that editing /verif meanwhile does not disturb the run
 SNAP=$(mktemp -d /tmp/verif_snap.XXXXXX)
 rsync -a --exclude .work --exclude .git --exclude ptfacts --exclude out --exclude evidence /verif/ "$SNAP"/
 ln -s /verif/.work "$SNAP/.work"; ln -s /verif/ptfacts "$SNAP/ptfacts"
 for p in /verif/selftest/benign/*.patch; do
+  idx=$((idx+1)); [ $((idx % SH_N)) -ne $SH_K ] && continue
   (cd "$WT" && git checkout -q -- . && git apply "$p") || { echo "APPLY-FAIL $p"; continue; }
   for prop in $PROPS; do
     out=$(cd "$SNAP" && PT_REPO="$WT" ./check $prop 2>&1); rc=$?
